@@ -234,10 +234,13 @@ func (s *CertPool) AppendCertsFromPEM(pemCerts []byte) (ok bool) {
 		}
 		s.addCertFunc(sha256.Sum224(cert.Raw), string(cert.RawSubject), func() (*Certificate, error) {
 			lazyCert.Do(func() {
+				verifGate("init:smx509.lazyCert")
+				defer verifGate("inited:smx509.lazyCert")
 				// This can't fail, as the same bytes already parsed above.
 				lazyCert.v, _ = ParseCertificate(certBytes)
 				certBytes = nil
 			})
+			verifGate("done:smx509.lazyCert")
 			return lazyCert.v, nil
 		}, nil)
 		ok = true
